@@ -790,6 +790,15 @@ namespace ip {
 			m_bytes_in_flight -= it->second;
 			m_outstanding_packet_sizes.erase(it);
 		}
+
+		// the hop that dropped the packet consumed its drop callback. The
+		// retransmission may be dropped too
+		std::shared_ptr<aux::sink_forwarder> fwd = m_forwarder;
+		p.drop_fun = [fwd](aux::packet pkt)
+		{
+			if (sink* s = fwd->destination())
+				static_cast<tcp::socket*>(s)->packet_dropped(std::move(pkt));
+		};
 		m_outgoing_packets.push_back(std::move(p));
 
 		const int packets_in_cwnd = m_cwnd / m_mss;
